@@ -1,7 +1,7 @@
 """L rules: lock discipline of the callers of the transaction manager."""
 import ast
 
-from .framework import rule, Ob, fmt_trace, sql_events, call_events, values_in
+from .framework import rule, Ob, fmt_trace, sql_events, call_events, values_in, role_of, within
 from .model import AnalysisError, walk_shallow, dotted
 from .values import V
 
@@ -64,14 +64,14 @@ def l1(ctx):
                         if _forwarder(ev, ctx):
                             continue
                         k = (ev.fn.qual, ev.line, ev.node.col_offset)
-                        info = sites.setdefault(k, {'sig': 'unresolved', 'fn': ev.fn, 'node': ev.node, 'in': 0,
+                        info = sites.setdefault(k, {'sig': 'unresolved', 'fn': ev.fn, 'stack': ev.stack, 'node': ev.node, 'in': 0,
                                                     'out': 0, 'wit': None, 'entry': set()})
                         info['out'] += 1
                         info['wit'] = info['wit'] or fmt_trace(p.trace)
                         continue
                     if st.kind == 'vacuum':
                         k = (ev.fn.qual, ev.line, ev.node.col_offset)
-                        info = sites.setdefault(k, {'sig': 'vacuum', 'fn': ev.fn, 'node': ev.node, 'in': 0, 'out': 0,
+                        info = sites.setdefault(k, {'sig': 'vacuum', 'fn': ev.fn, 'stack': ev.stack, 'node': ev.node, 'in': 0, 'out': 0,
                                                     'wit': None, 'entry': set(), 'vacuum': True})
                         if ev.txn:
                             info['in'] += 1
@@ -82,7 +82,7 @@ def l1(ctx):
                     if not _is_row_write(ev):
                         continue
                     k = (ev.fn.qual, ev.line, ev.node.col_offset)
-                    info = sites.setdefault(k, {'sig': _stmt_sig(st), 'fn': ev.fn, 'node': ev.node, 'in': 0,
+                    info = sites.setdefault(k, {'sig': _stmt_sig(st), 'fn': ev.fn, 'stack': ev.stack, 'node': ev.node, 'in': 0,
                                                 'out': 0, 'wit': None, 'entry': set()})
                     info['entry'].add(f.qual)
                     if ev.txn:
@@ -97,7 +97,7 @@ def l1(ctx):
                         if t.cls == 'Cache' and t.name.startswith('_') and not t.name.startswith('__') \
                                 and _helper_writes(ctx, t) and not ev.txn:
                             k = (ev.fn.qual, ev.line, ev.node.col_offset)
-                            info = sites.setdefault(k, {'sig': 'call:' + t.name, 'fn': ev.fn, 'node': ev.node,
+                            info = sites.setdefault(k, {'sig': 'call:' + t.name, 'fn': ev.fn, 'stack': ev.stack, 'node': ev.node,
                                                         'in': 0, 'out': 0, 'wit': None, 'entry': set()})
                             info['out'] += 1
                             info['wit'] = info['wit'] or fmt_trace(p.trace)
@@ -113,8 +113,8 @@ def l1(ctx):
         if info.get('vacuum'):
             obs.append(Ob('L1', key, info['in'] == 0, 'VACUUM executes inside a transaction block', loc, info['wit']))
             continue
-        if fq in L1_EXEMPT:
-            obs.append(Ob('L1', key, True, 'exempt: ' + L1_EXEMPT[fq], loc, nontrivial=False))
+        if fq in L1_EXEMPT or any(q in L1_EXEMPT for q in info.get('stack', ())):
+            obs.append(Ob('L1', key, True, 'exempt: bootstrap/reset', loc, nontrivial=False))
             continue
         obs.append(Ob('L1', key, info['out'] == 0 and info['in'] > 0,
                       'row write `%s` executes without holding the write lock on some path (entry: %s): a '
@@ -158,7 +158,7 @@ def l2(ctx):
             latest = {}      # select site -> seq of its most recent execution
             for i, ev in enumerate(tr):
                 if ev.kind == 'SQL' and ev.d.get('stmt') is not None and ev.d['stmt'].kind == 'select':
-                    latest[(ev.fn.qual, ev.line, ev.node.col_offset)] = ev.seq
+                    latest[(ev.fn.qual, ev.line, ev.node.col_offset, ev.sites)] = ev.seq
                 if ev.kind == 'TEST':
                     tested |= _select_deps(ev.d['val'])
                 elif ev.kind == 'FOR':
@@ -172,7 +172,7 @@ def l2(ctx):
                     deps |= _select_deps(ev.d['stmtv'])
                     for s in deps:
                         sev = tr[s]
-                        if latest.get((sev.fn.qual, sev.line, sev.node.col_offset)) != s:
+                        if latest.get((sev.fn.qual, sev.line, sev.node.col_offset, sev.sites)) != s:
                             continue   # a previous loop iteration's result: superseded by a re-read
                         sst = sev.d.get('stmt')
                         if sst is None or sst.kind != 'select' or (sst.table or '').lower() != 'cache':
@@ -275,7 +275,7 @@ def l4(ctx):
                 if b is None:
                     continue
                 k = (ev.fn.qual, ev.line, ev.node.col_offset)
-                info = sites.setdefault(k, {'kind': b, 'fn': ev.fn, 'node': ev.node, 'in': False, 'wit': None})
+                info = sites.setdefault(k, {'kind': b, 'fn': ev.fn, 'stack': ev.stack, 'node': ev.node, 'in': False, 'wit': None})
                 if ev.txn:
                     info['in'] = True
                     info['wit'] = info['wit'] or fmt_trace(p.trace)
@@ -475,6 +475,8 @@ def l6(ctx):
         closed = [e for e in p.trace if (e.kind == 'MCALL' and e.d['name'] == 'close')]
         forgot = [e for e in p.trace if e.kind == 'EXT' and e.d['name'] == 'builtins.delattr' and e.d['args']
                   and e.d['args'][0].k == 'selfattr' and e.d['args'][0].a[1] == holder]
+        forgot += [e for e in p.trace if e.kind == 'DELATTR' and e.d['base'].k == 'selfattr'
+                   and e.d['base'].a[1] == holder and e.d['attr'] == 'con']
         if closed and forgot:
             ok = True
     obs.append(Ob('L6', 'close-forgets-connection', ok, 'close() does not both close and forget the thread-local '
